@@ -50,7 +50,7 @@ struct NodeX {
       case 18: s.rx(Frame::mk(0x200u + nid, 8, {(uint8_t)o.a, (uint8_t)o.b, (uint8_t)o.c, 0, 0, 0, 0, 0})); break;
       case 19: { uint32_t k = o.a % 3; if (!inH) { sdo(0x40, 0x1000, 0, 0); break; } if (k == 0) sdo(0x40, 0x1000, 0, 0); else if (k == 1) sdo(0xA0, 0x1018, 1, 4); else sdo(0xC0, 0x2100, 3, 0); break; }   // transfers left open (history only)
       case 20: { s.api_begin(); CO_CSDO *cl = COCSdoFind(s.node, 0); if (cl) { CO_ERR e = COCSdoRequestUpload(cl, CO_DEV(0x2000, 1), csbuf, (o.a % 2) ? 4 : 20, cs_done, 5 + o.b % 20); Event ev; ev.k = EV_CSDO; ev.tick = s.tick; ev.a = 0xEEEE0000u | (uint32_t)e; ev.b = 0; s.ev.push_back(ev); } s.api_end("COCSdoRequestUpload"); break; }
-      case 21: s.rx(Frame::mk(0x580u + 0x30, 8, {0x43, 0x00, 0x20, 1, 1, 2, 3, 4})); break;
+      case 21: s.rx(Frame::mk(0x580u + 0x30 + (o.a % 4 == 3 ? 1 : 0), 8, {0x43, 0x00, 0x20, 1, 1, 2, 3, 4})); break;
       case 22: { uint32_t k = o.a % 4;   // LSS: switch only / inquire only (answered only in configuration state) / configure / both
         if (k == 0) s.rx(Frame::mk(0x7E5, 8, {4, (uint8_t)(o.b % 2), 0, 0, 0, 0, 0, 0}));
         else if (k == 1) s.rx(Frame::mk(0x7E5, 8, {94, 0, 0, 0, 0, 0, 0, 0}));
@@ -59,7 +59,9 @@ struct NodeX {
         break; }
       case 23: sdo(0x2B, (uint16_t)(0x1800 + o.b % 2), 5, (uint16_t[]){0, 5, 9}[o.a % 3]); break;
       case 24: sdo(0x23, (uint16_t)(0x1800 + o.b % 2), 1, (0x40000180u + 0x100u * (o.b % 2) + nid) | ((o.a % 2) ? 0x80000000u : 0)); break;
-      default: s.rx(Frame::mk(0x123, 2, {1, 2})); break;
+      default: if (o.a % 3 == 2) sdo(0x2F, 0x1280, 3, 0x30u + o.b % 2);    // the SDO client's server node id (takes effect at the next reset / start)
+               else s.rx(Frame::mk(0x123, 2, {1, 2}));
+               break;
     }
   }
   // canonical, order-insensitive rendering of what one P step produced
@@ -91,7 +93,7 @@ void one_case(Ctx &c) {
   int apptmr = -1; if (with_app_timer) { A.s.api_begin(); apptmr = COTmrCreate(&A.s.node->Tmr, 3, 7, app_cb, 0); A.s.api_end("COTmrCreate"); }
   VLOG(c, "node %u: history of %zu ops, reset %s, probe of %zu ops%s", g.nodeid, H.size(), reset_node ? "node" : "communication", P.size(), with_app_timer ? ", one cyclic application timer" : "");
   bool changed_param = false, nonidle = false;
-  for (auto &o : H) { VLOG(c, "history op %u (%u,%u,%u)", o.op, o.a, o.b, o.c); A.exec(o, true); if ((o.op >= 9 && o.op <= 12) || o.op == 23 || o.op == 24 || o.op == 13) changed_param = true; if (o.op == 19 || o.op == 20 || o.op == 16) nonidle = true; c.ops++; }
+  for (auto &o : H) { VLOG(c, "history op %u (%u,%u,%u)", o.op, o.a, o.b, o.c); A.exec(o, true); if ((o.op >= 9 && o.op <= 12) || o.op == 23 || o.op == 24 || o.op == 13 || (o.op == 25 && o.a % 3 == 2)) changed_param = true; if (o.op == 19 || o.op == 20 || o.op == 16) nonidle = true; c.ops++; }
   A.s.clear_tx(); A.s.clear_ev();
   A.s.rx(Frame::mk(0, 2, {(uint8_t)(reset_node ? 129 : 130), 0}));
   long baseA = A.s.tick;
@@ -132,7 +134,7 @@ void one_case(Ctx &c) {
 
 Registrar reg(Prop{
     "C20",
-    "Cases: a node with heartbeat producer, SYNC consumer/producer, two heartbeat consumer entries, two TPDOs (event/inhibit/sync types), an RPDO, an SDO client, LSS and EMCY (generated configuration); a history H of 0..60 (120) ops from 26 kinds (ticks, heartbeat/SYNC/RPDO/LSS/foreign frames, SDO writes to 1017h/1005h/1006h/1016h/18xxh:1/18xxh:5, NMT start/stop, triggers, object writes, EMCY set/clear, SDO transfers left open in three protocol states, client requests left busy, an optional cyclic application timer), "
+    "Cases: a node with heartbeat producer, SYNC consumer/producer, two heartbeat consumer entries, two TPDOs (event/inhibit/sync types), an RPDO, an SDO client, LSS and EMCY (generated configuration); a history H of 0..60 (120) ops from 26 kinds (ticks, heartbeat/SYNC/RPDO/LSS/foreign frames, SDO write to the SDO client's server node id 1280h:3, SDO writes to 1017h/1005h/1006h/1016h/18xxh:1/18xxh:5, NMT start/stop, triggers, object writes, EMCY set/clear, SDO transfers left open in three protocol states, client requests left busy, an optional cyclic application timer), "
     "then NMT reset communication (or reset node), then a probe sequence P of 8..60 (90) ops of the same kinds (conforming traffic only). "
     "Oracle (metamorphic): node B is a fresh node whose object storage equals A's storage right after the reset; after init+start it executes the same P; per probe step the sorted list of transmitted frames (with ticks relative to reset/start) and application callbacks (mode changes, heartbeat events/changes, frames handed to the application, client completions, PDO callbacks) must be identical; timer-pool occupancy of A equals B's plus live application timers right after the reset and after P. "
     "Non-trivial: H changed at least one communication parameter or NMT state, or left a service non-idle (open SDO transfer, busy client, active emergency). Distinct = distinct decoded choice sequence.",
